@@ -1302,6 +1302,16 @@ fn run_parent(seed: u64, tier: Tier, runs: u64, workers: usize, want_log_hash: b
         eprintln!("harness error: reach probes stuck at zero: {missing:?}");
         return 2;
     }
+    // Discards are never violations, but a run that discards a lot has explored little:
+    // say so instead of passing quietly.
+    let discards = st.died_class_b_discarded + st.timed_out_discarded;
+    if code == 0 && runs >= 20_000 && discards > (st.trials / 200).max(50) {
+        eprintln!(
+            "harness error: {discards} of {} trials were discarded (watchdog {} / cumulative exhaustion {}): the workload or the code under test changed character; not a verdict",
+            st.trials, st.timed_out_discarded, st.died_class_b_discarded
+        );
+        return 2;
+    }
     code
 }
 
